@@ -134,6 +134,25 @@ def _hashable(x):
     return x
 
 
+_SCRUB = None
+
+
+def scrub(text):
+    """Remove what legitimately differs between two runs of one case: object addresses,
+    scratch directory names, shared-memory segment names."""
+    global _SCRUB
+    import re
+
+    if _SCRUB is None:
+        _SCRUB = [(re.compile(r"0x[0-9a-fA-F]{6,}"), "0x..."),
+                  (re.compile(r"/dev/shm/vf_[A-Za-z0-9_]+"), "<scratch>"),
+                  (re.compile(r"/tmp/vf_[A-Za-z0-9_]+"), "<scratch>"),
+                  (re.compile(r"psm_[0-9a-f]{8}"), "psm_...")]
+    for rx, rep in _SCRUB:
+        text = rx.sub(rep, text)
+    return text
+
+
 def short(o, n=300):
     s = repr(o)
     return s if len(s) <= n else s[: n - 3] + "..."
